@@ -174,6 +174,16 @@ func mkEq(a, b *Term) *Term {
 	if sameTerm(a, b) {
 		return tTrue
 	}
+	if a.Sort == SStr {
+		// lower(x) = "const"  <=>  x is in the case-insensitive language of the constant (a plain regular
+		// membership: cvc5 does not decide str.to_lower together with other memberships of x)
+		if r := caseFoldEq(a, b); r != nil {
+			return r
+		}
+		if r := caseFoldEq(b, a); r != nil {
+			return r
+		}
+	}
 	if a.Sort == SBool {
 		if a.IsConst() {
 			if a.B {
@@ -640,4 +650,35 @@ func evalTerm(t *Term, model map[string]*Term) *Term {
 		return nil
 	}
 	return nil
+}
+
+// caseFoldEq rewrites u_lower(x) = c / u_upper(x) = c for a constant c (ASCII, see symLower).
+func caseFoldEq(f, c *Term) *Term {
+	if f.Op != "uf" || len(f.Args) != 1 || !c.IsConst() || (f.S != "u_lower" && f.S != "u_upper") {
+		return nil
+	}
+	lower := f.S == "u_lower"
+	var b strings.Builder
+	b.WriteString("(re.++")
+	for i := 0; i < len(c.S); i++ {
+		ch := c.S[i]
+		isLo, isUp := ch >= 'a' && ch <= 'z', ch >= 'A' && ch <= 'Z'
+		if (lower && isUp) || (!lower && isLo) {
+			return tFalse // a lower-cased string has no upper-case letter (and vice versa)
+		}
+		if isLo || isUp {
+			lo, up := ch|0x20, ch&^0x20
+			fmt.Fprintf(&b, " (re.union (str.to_re %s) (str.to_re %s))", smtStringLit(string(lo)), smtStringLit(string(up)))
+		} else {
+			fmt.Fprintf(&b, " (str.to_re %s)", smtStringLit(string(ch)))
+		}
+	}
+	if len(c.S) == 0 {
+		return mkEq(f.Args[0], mkStr(""))
+	}
+	if len(c.S) == 1 {
+		b.WriteString(` (str.to_re "")`)
+	}
+	b.WriteString(")")
+	return mkInRe(f.Args[0], b.String())
 }
